@@ -250,7 +250,7 @@ def exec_image(case):
         elif kind == "seam":
             # next to the boundary point where RA = 0 was placed (or next to the first corner), just inside the image
             side, t = case.get("seam_at") or [0, 0.0]
-            ex, ey = edge_point(W, H, side, t + (pr["frac"] - 0.5) * 0.12)
+            ex, ey = edge_point(W, H, side, t + (pr["frac"] - 0.5) * 0.07)
             vx, vy = cx - ex, cy - ey
             nrm = math.hypot(vx, vy) or 1.0
             qx = ex + pr["shift"] * vx / nrm
@@ -311,7 +311,7 @@ def image_cases(draw, tier, max_scale_log=-0.52):
 @st.composite
 def strat_image(draw, tier):
     case = draw(image_cases(tier))
-    polar = draw(st.integers(0, 7)) == 0
+    polar = draw(st.integers(0, 4)) == 0
     deep = False
     if polar:
         # an image with a celestial pole well inside it (latitude extreme in the interior, all longitudes)
@@ -335,11 +335,11 @@ def strat_image(draw, tier):
                     c = {"first": 0.5 + f, "last": N - 0.5 + f, "any": 0.5 + f + draw(st.integers(0, N - 1))}[cell]
                     case["wcs"][key] = (c - 1) / (N - 1)
             deep = True
-    seam = draw(st.integers(0, 1 if polar else 3)) == 0
+    seam = draw(st.integers(0, 2)) > 0 if polar else draw(st.integers(0, 3)) == 0
     if seam:
         # RA = 0 on a chosen boundary point, mostly within a fraction of a side from a corner (where an unwrapping walk
         # starts / ends; for an image that contains a pole the walk must close the full turn there)
-        if draw(st.booleans()):
+        if draw(st.integers(0, 3 if polar else 1)) > 0:
             side, t = draw(st.sampled_from([[3, 1.0 - draw(st.floats(0.0, 0.04))], [0, draw(st.floats(0.0, 0.04))]]))
         else:
             side = draw(st.sampled_from([0, 3, 1, 2]))
@@ -348,12 +348,12 @@ def strat_image(draw, tier):
     if draw(st.integers(0, 5)) == 0:
         case["planetary"] = True
     probes = []
-    for _ in range(draw(st.integers(2, 6))):
+    for _ in range(draw(st.integers(3, 8) if polar else st.integers(2, 6))):
         kinds = ["pole", "pole", "interior", "ring"] if polar else ["latmax", "latmin", "lonmax", "lonmin", "latmax", "latmin", "lonmax", "lonmin", "ring", "interior", "pole"]
         if seam:
             kinds = kinds + ["seam"] * (len(kinds) if polar else len(kinds) // 2)
         kind = draw(st.sampled_from(kinds))
-        pr = {"kind": kind, "shift": draw(st.floats(0.01, 0.45)), "ratio": 2 ** (draw(st.floats(-14, -8)) if (polar and kind == "seam") else draw(st.floats(-14 if deep else -10, 2))), "frac": draw(st.floats(0, 1)), "frac2": draw(st.floats(0, 1))}
+        pr = {"kind": kind, "shift": draw(st.floats(0.01, 0.45)), "ratio": 2 ** (draw(st.floats(-14, -8)) if (polar and (kind == "seam" or (kind == "pole" and deep and draw(st.booleans())))) else draw(st.floats(-14 if deep else -10, 2))), "frac": draw(st.floats(0, 1)), "frac2": draw(st.floats(0, 1))}
         probes.append(pr)
     case["probes"] = probes
     return case
@@ -707,7 +707,7 @@ def strat_chunk_e2e(draw, tier):
 PARTS = [
     Part("box_direct", exec_box, strategy=strat_box, examples={"quick": 600, "thorough": 60000}, shards={"quick": 16, "thorough": 16},
          budget_s={"quick": 60, "thorough": 1200}, describe="latitude/longitude box filters x probe tiles"),
-    Part("image_direct", exec_image, strategy=strat_image, examples={"quick": 500, "thorough": 40000}, shards={"quick": 16, "thorough": 16},
+    Part("image_direct", exec_image, strategy=strat_image, examples={"quick": 700, "thorough": 40000}, shards={"quick": 16, "thorough": 16},
          budget_s={"quick": 70, "thorough": 1500}, describe="image-footprint filters x probe tiles aimed at the footprint's extremes"),
     Part("chunk_direct", exec_chunk, strategy=strat_chunk, examples={"quick": 400, "thorough": 30000}, shards={"quick": 16, "thorough": 16},
          budget_s={"quick": 60, "thorough": 1200}, describe="chunk filters of generated chunk grids x probe tiles"),
